@@ -1,5 +1,6 @@
 import PeptVerif.Model.Reorder
 import PeptVerif.Model.AnnotEq
+import PeptVerif.Model.StaticMods
 /-!
 # Model of subsequence search and coverage (C16). Mathlib-free.
 
@@ -74,6 +75,43 @@ def isSubsequenceOrdered (subsequence sequence : Annotation) : Bool :=
 `all(sub_counts[aa] <= seq_counts[aa] for aa in sub_counts)` -/
 def unorderedContained {κ : Type} [DecidableEq κ] (sub seq : List κ) : Bool :=
   sub.all fun k => decide (sub.count k ≤ seq.count k)
+
+/-! ### order-insensitive containment on the real residue keys
+
+`is_subsequence(sub, seq, order=False)` after the repair 92a74e5 counts the one-residue pieces of both annotations
+(`condense_static_mods(inplace=False).split()`) under a hashable key built from exactly the fields that
+`ProFormaAnnotation.__eq__` compares, every modification list as a multiset (`frozenset(Counter(mods).items())`,
+internal mods `None` and `{}` alike). Equality of two such keys is `annEq`; `Counter(keys)[k]` is the number of
+pieces whose key equals `k`. `condenseStatic` is the shared model of C12, `split` that of C11. -/
+
+/-- `annotation.condense_static_mods(inplace=False).split()` -/
+def residuePieces (a : Annotation) : Except Static.Err (List Annotation) :=
+  match Static.condenseStatic a with
+  | .error e => .error e
+  | .ok c => .ok (Reorder.split c)
+
+/-- `all(sub_counts[k] <= seq_counts[k] for k in sub_counts)` on the two piece lists, keys compared by `==` -/
+def piecesContained (qs ts : List Annotation) : Bool :=
+  qs.all fun p => decide (qs.countP (annEq p) ≤ ts.countP (annEq p))
+
+/-- `is_subsequence(subsequence, sequence, order=False)` (the subsequence is counted first, as in the code) -/
+def isSubsequenceUnordered (subsequence sequence : Annotation) : Except Static.Err Bool :=
+  match residuePieces subsequence with
+  | .error e => .error e
+  | .ok qs =>
+    match residuePieces sequence with
+    | .error e => .error e
+    | .ok ts => .ok (piecesContained qs ts)
+
+/-- the test as it was before the repair: residues keyed by their serialised text (`count_residues`).
+Kept for the counter-example and the `_partial` theorem of Props/C16. -/
+def isSubsequenceUnorderedText (subsequence sequence : Annotation) : Except Static.Err Bool :=
+  match Static.countResidues subsequence with
+  | .error e => .error e
+  | .ok cs =>
+    match Static.countResidues sequence with
+    | .error e => .error e
+    | .ok ct => .ok (cs.all fun kn => decide (kn.2 ≤ ((ct.lookup kn.1).getD 0)))
 
 /-- `cov[i:i+L] = [1] * L` -/
 def markSet (i L : Nat) (cov : List Nat) : List Nat :=
